@@ -212,9 +212,25 @@ pub fn spec_for(prop: &str, tier: &str) -> Option<Spec> {
                             Config::new(Consistency::Strict, Backend::Mmap),
                             Config::new(Consistency::Alo(1), Backend::Fd),
                             Config::new(Consistency::Alo(3), Backend::Fd),
+                            {
+                                let mut c = strict_fd();
+                                c.clock = Clock::Backward;
+                                c
+                            },
+                            {
+                                let mut c = Config::new(Consistency::Alo(2), Backend::Mmap);
+                                c.clock = Clock::Backward;
+                                c
+                            },
                         ]
                     } else {
-                        vec![strict_fd(), Config::new(Consistency::Alo(3), Backend::Mmap)]
+                        vec![strict_fd(), Config::new(Consistency::Alo(3), Backend::Mmap), {
+                            // the wall clock steps back between runs (a restart forgets the
+                            // last file-name timestamp, as a new process does)
+                            let mut c = strict_fd();
+                            c.clock = Clock::Backward;
+                            c
+                        }]
                     }
                 }
                 "C04" => {
@@ -261,7 +277,9 @@ pub fn spec_for(prop: &str, tier: &str) -> Option<Spec> {
                         v.push(Op::Batch { t: 0, lens: vec![] });
                         if prop_s == "C04" {
                             v.push(Op::Append { t: 2, len: max_alloc }); // first op on a new topic fails
-                            v.push(Op::Batch { t: 2, lens: vec![] });
+                            if thorough {
+                                v.push(Op::Batch { t: 2, lens: vec![] });
+                            }
                             v.push(Op::AppendLongTopic { name_len: 300, len: 8, batch: false });
                             v.push(Op::AppendLongTopic { name_len: 300, len: 8, batch: true });
                             v.push(Op::Batch { t: 0, lens: vec![1, max_alloc] });
@@ -316,6 +334,10 @@ pub fn spec_for(prop: &str, tier: &str) -> Option<Spec> {
                 probe: None,
                 tails: if prop == "C16" {
                     vec![]
+                } else if prop == "C04" && !thorough {
+                    // quick tier: in-process visibility is covered by the reads of the alphabet;
+                    // the tail looks at what a restart brings back
+                    vec![vec![Op::Restart, Op::Drain { t: 0 }, Op::Drain { t: 1 }, Op::Drain { t: 2 }]]
                 } else {
                     vec![
                         vec![Op::Drain { t: 0 }, Op::Drain { t: 1 }, Op::Drain { t: 2 }],
